@@ -79,6 +79,22 @@ def _size(case):
     return len(json.dumps(case, sort_keys=True, default=str))
 
 
+ALT_FIRST, ALT_LARGEST = 10, 14
+
+
+def _keep_alt(alts, rec):
+    """Keep the first ALT_FIRST failing cases seen and the ALT_LARGEST largest ones (distinct)."""
+    if any(a["size"] == rec["size"] and a["case"] == rec["case"] for a in alts):
+        return
+    if len(alts) < ALT_FIRST + ALT_LARGEST:
+        alts.append(rec)
+        return
+    tail = alts[ALT_FIRST:]
+    smallest = min(range(len(tail)), key=lambda i: tail[i]["size"])
+    if rec["size"] > tail[smallest]["size"]:
+        alts[ALT_FIRST + smallest] = rec
+
+
 class Stats:
     """What one work unit (or the merged run) covered."""
 
@@ -123,14 +139,16 @@ class Stats:
     def add_failure(self, failure, case, known_open):
         target = self.known if failure.bucket in known_open else self.failures
         cur = target.get(failure.bucket)
+        s = _size(case)
         if cur is None:
-            target[failure.bucket] = {"count": 1, "case": case, "detail": jsonable(failure.detail),
-                                      "size": _size(case)}
+            cur = target[failure.bucket] = {"count": 1, "case": case, "detail": jsonable(failure.detail), "size": s, "alts": []}
         else:
             cur["count"] += 1
-            s = _size(case)
             if s < cur["size"]:
                 cur.update(case=case, detail=jsonable(failure.detail), size=s)
+        # other failing cases of the bucket (the first ones seen and the largest ones): if the smallest case only fails because of
+        # state left behind by earlier cases in the same process, one of these may carry its own history and reproduce alone
+        _keep_alt(cur.setdefault("alts", []), {"case": case, "detail": jsonable(failure.detail), "size": s})
 
     # -- merging ---------------------------------------------------------------------
     def merge(self, other):
@@ -145,11 +163,13 @@ class Stats:
             for b, rec in theirs.items():
                 cur = mine.get(b)
                 if cur is None:
-                    mine[b] = dict(rec)
+                    mine[b] = dict(rec, alts=list(rec.get("alts", [])))
                 else:
                     cur["count"] += rec["count"]
                     if rec["size"] < cur["size"]:
                         cur.update(case=rec["case"], detail=rec["detail"], size=rec["size"])
+                    for a in rec.get("alts", []):
+                        _keep_alt(cur.setdefault("alts", []), a)
         self.raised_allowed.update(other.raised_allowed)
         self.tolerant.update(other.tolerant)
         self.timeouts.extend(other.timeouts)
